@@ -47,6 +47,12 @@ RULE = (
     'is non-trivial when it has >=2 clients, >=2 distinct non-zero weights '
     '(sum: >=2 clients) and a multi-leaf tree; a clip case when the tree is '
     'multi-leaf and non-zero. distinct = distinct canonical case JSON.')
+RULE += (
+    ' '
+    'Later widenings: clip bounds 0, inf and integral bounds handed over as Python / NumPy in'
+    'tegers; complex64 leaves; weights as 0-d / uint8 / int16 NumPy values; trees with the sa'
+    'me array at two positions; repeated client ids in aggregator rounds; the mean assembled '
+    'from the public pieces; float64 leaves in a child interpreter with JAX_ENABLE_X64=1.')
 ASSUMPTIONS = [
     'weights are non-negative finite numbers; the total number of clients is '
     '>=1 (an empty iterable is outside the quantifier)',
